@@ -156,7 +156,7 @@ def main(tier: str) -> int:
                             impl.write_delimited(fr, out)
                     data = out.getvalue()
                 except Exception as ex:  # noqa: BLE001
-                    if undersized and type(ex).__name__ == "JellyConformanceError" and "cannot hold" in str(ex):
+                    if undersized and type(ex).__name__ == "JellyConformanceError":      # (the exception TYPE, never the wording of its message)
                         refused += 1
                         continue
                     run.violation({"clause": "serializer-raised", **key}, f"{type(ex).__name__}: {ex}", rp)
